@@ -198,6 +198,35 @@ def run(ck):
             dmax = max(float(np.max(np.abs(x.astype(float) - y.astype(float)))) for x, y in zip(a, b) if x.shape == y.shape)
             ck.violation(f'wide data: refit predicts differently from a fresh model (max diff {dmax}) on {descw}', dict(descw, maxdiff=dmax),
                          key=json.dumps(dict(site='refit', method='wide')))
+    # (2d) discrete features with an axis-aligned split: the median cut falls inside a run of rows with EQUAL projections — which of them go left is the same in two fits with
+    #      the same seed
+    for j in range(ck.n(3, 9)):
+        methodd = ['fixed_vector', 'rf_criterion', 'fixed_vector'][j % 3]; taskd = ['reg', 'class', 'reg'][j % 3]; dd = 3
+        def datad(n):
+            X = rng.integers(0, 4, size=(n, dd)).astype(np.float32); X[:, 1:] += rng.standard_normal((n, dd - 1)).astype(np.float32)      # column 0 is integer coded (4 levels)
+            y = xr.make_y(taskd, X, rng, n_classes=2); Xv = rng.integers(0, 4, size=(40, dd)).astype(np.float32); Xv[:, 1:] += rng.standard_normal((40, dd - 1)).astype(np.float32)
+            yv = xr.make_y(taskd, Xv, rng, n_classes=2)
+            return [torch.tensor(a) for a in (X, y, Xv, yv)]
+        Dd = datad(150); Qd = torch.tensor(np.concatenate([Dd[0].numpy()[:15], rng.integers(0, 4, size=(15, dd)).astype(np.float32)]))
+        kwd = dict(fixed_vector=torch.tensor([1.0, 0.0, 0.0])) if methodd == 'fixed_vector' else {}
+        ctord = dict(rfm_params=xr.default_rfm_params(iters=0, reg=1e-2, bandwidth=3.0), max_leaf_size=40, verbose=False, split_method=methodd, use_temperature_tuning=False, refill_size=10,
+                     random_state=700 + j, **kwd)
+        descd = dict(kind='tied projections', j=j, method=methodd, task=taskd, seed=ck.seed)
+        outsd = []
+        for burn in (0, 29, 4_000):
+            random.seed(burn); np.random.seed(burn); torch.manual_seed(burn)
+            if burn:
+                torch.randn(burn); np.random.rand(burn)
+            md = xr.xRFM(**copy.deepcopy(ctord))
+            with xr.quiet():
+                md.fit(*Dd)
+            outsd.append(preds(md, Qd, taskd == 'class'))
+        ck.case(descd, nontrivial=any(t['type'] != 'leaf' for t in md.trees)); ck.count('tied projections at the median cut')
+        for k in (1, 2):
+            if any(not np.array_equal(a, b) for a, b in zip(outsd[0], outsd[k])):
+                dmax = max(float(np.max(np.abs(a.astype(float) - b.astype(float)))) for a, b in zip(outsd[0], outsd[k]))
+                ck.violation(f'same seed/data/config gives different predictions (max diff {dmax}) on discrete data split along the integer-coded column ({descd})', dict(descd, maxdiff=dmax),
+                             key=json.dumps(dict(site='seed-reproducibility', method='tied')))
     # (3) tie-forcing scenario from C10's tie theorem: accuracy on a tiny validation set, candidates tie
     for i in range(ck.n(6, 30)):
         D1 = data('class', 160, 3, K=2)
